@@ -130,6 +130,11 @@ func mk(op string, sort *Sort, args ...*Term) *Term {
 	}
 	k := sb.String()
 	if t, ok := termTable[k]; ok {
+		if caseTruth != nil && sort == BoolS {
+			if v, ok := caseTruth[t.id]; ok {
+				return BoolT(v)
+			}
+		}
 		return t
 	}
 	termCount++
@@ -137,6 +142,10 @@ func mk(op string, sort *Sort, args ...*Term) *Term {
 	termTable[k] = t
 	return t
 }
+
+// caseTruth: atoms decided by the case currently being verified (see the
+// `case` clauses of contracts); constructing such an atom yields its value.
+var caseTruth map[int]bool
 
 var (
 	True  = &Term{Op: "bool", Sort: BoolS, BVal: true, id: -1}
@@ -456,6 +465,26 @@ func Ite(c, a, b *Term) *Term {
 	}
 	if c.Op == "not" {
 		return Ite(c.Args[0], b, a)
+	}
+	if a.Sort == StringS && (a.Op == "str.++" || b.Op == "str.++") {
+		// factor structurally equal leading / trailing parts out of the choice
+		pa, pb := concatParts(a), concatParts(b)
+		i := 0
+		for i < len(pa) && i < len(pb) && pa[i] == pb[i] {
+			i++
+		}
+		ja, jb := len(pa), len(pb)
+		for ja > i && jb > i && pa[ja-1] == pb[jb-1] {
+			ja--
+			jb--
+		}
+		if i > 0 || ja < len(pa) {
+			var parts []*Term
+			parts = append(parts, pa[:i]...)
+			parts = append(parts, Ite(c, Concat(pa[i:ja]...), Concat(pb[i:jb]...)))
+			parts = append(parts, pa[ja:]...)
+			return Concat(parts...)
+		}
 	}
 	// ite(c, x, ite(c, y, z)) => ite(c, x, z)
 	if b.Op == "ite" && b.Args[0] == c {
@@ -1471,13 +1500,48 @@ func Symbols(t *Term, into map[string]bool, seen map[int]bool) {
 // resolved.  Purely syntactic; sound because it only uses pc.
 func Restrict(t *Term, pc *Term) *Term {
 	facts := map[int]bool{}
+	negFacts := map[int]bool{}
 	for _, c := range conj(pc) {
 		facts[c.id] = true
 	}
 	if len(facts) == 0 {
 		return t
 	}
+	// not(and(x1..xn)) with some xi known: the remaining conjunction is false
+	for pass := 0; pass < 2; pass++ {
+		for _, c := range conj(pc) {
+			if c.Op != "not" || c.Args[0].Op != "and" {
+				continue
+			}
+			var rest []*Term
+			for _, x := range c.Args[0].Args {
+				if !facts[x.id] {
+					rest = append(rest, x)
+				}
+			}
+			if len(rest) > 0 && len(rest) < len(c.Args[0].Args) {
+				facts[Not(And(rest...)).id] = true
+				negFacts[And(rest...).id] = true
+			}
+		}
+	}
+	for _, c := range conj(pc) {
+		if c.Op == "not" {
+			negFacts[c.Args[0].id] = true
+		}
+	}
 	memo := map[int]*Term{}
+	// equalities with a constant side substitute the other side
+	eqSubst := map[int]*Term{}
+	for _, c := range conj(pc) {
+		if c.Op == "=" && len(c.Args) == 2 {
+			if c.Args[0].IsConst() && !c.Args[1].IsConst() {
+				eqSubst[c.Args[1].id] = c.Args[0]
+			} else if c.Args[1].IsConst() && !c.Args[0].IsConst() {
+				eqSubst[c.Args[0].id] = c.Args[1]
+			}
+		}
+	}
 	var truth func(c *Term) int // 1 true, -1 false, 0 unknown
 	truth = func(c *Term) int {
 		if c.IsTrue() {
@@ -1492,7 +1556,7 @@ func Restrict(t *Term, pc *Term) *Term {
 		if c.Op == "not" {
 			return -truth(c.Args[0])
 		}
-		if facts[Not(c).id] {
+		if negFacts[c.id] {
 			return -1
 		}
 		if c.Op == "and" {
@@ -1523,11 +1587,17 @@ func Restrict(t *Term, pc *Term) *Term {
 	}
 	var rec func(t *Term, d int) *Term
 	rec = func(t *Term, d int) *Term {
+		if v, ok := eqSubst[t.id]; ok {
+			return v
+		}
 		if d > 60 || t.IsConst() || t.Op == "sym" || len(t.Args) == 0 {
 			return t
 		}
 		if r, ok := memo[t.id]; ok {
 			return r
+		}
+		if v, ok := eqSubst[t.id]; ok {
+			return v
 		}
 		var r *Term
 		switch {
@@ -1552,6 +1622,41 @@ func Restrict(t *Term, pc *Term) *Term {
 			} else {
 				r = t
 			}
+		case t.Sort.Kind == "array" || t.Op == "select" || t.Op == "store":
+			r = t // heaps are not searched for decided conditions
+		case t.Op != "forall" && t.Op != "exists" && t.Op != "tuple" && len(t.Bound) == 0 && len(t.Elems) == 0:
+			args := make([]*Term, len(t.Args))
+			ch := false
+			for i, a := range t.Args {
+				args[i] = rec(a, d+1)
+				ch = ch || args[i] != a
+			}
+			switch {
+			case !ch:
+				r = t
+			case t.Op == "=":
+				r = Eq(args[0], args[1])
+			case t.Op == "str.++":
+				r = Concat(args...)
+			case t.Op == "and":
+				r = And(args...)
+			case t.Op == "or":
+				r = Or(args...)
+			case t.Op == "not":
+				r = Not(args[0])
+			case t.Op == "str.prefixof":
+				r = StrPrefixOf(args[0], args[1])
+			case t.Op == "str.suffixof":
+				r = StrSuffixOf(args[0], args[1])
+			case t.Op == "str.len":
+				r = StrLen(args[0])
+			case t.Op == "select":
+				r = Select(args[0], args[1])
+			case t.Op == "uf:elemIndex":
+				r = ElemIndex(args[0], args[1])
+			default:
+				r = mk(t.Op, t.Sort, args...)
+			}
 		default:
 			r = t
 		}
@@ -1571,10 +1676,33 @@ func ElemIndex(off, i *Term) *Term {
 	if off.Op == "int" {
 		return Add(off, i)
 	}
+	if i.Op == "int" && i.IVal.Sign() == 0 {
+		return off
+	}
 	return App(elemIndexUF, off, i)
 }
 
 func ElemIndexAxiom() *Term {
 	o, i := BoundVar(IntS), BoundVar(IntS)
 	return Forall([]*Term{o, i}, Eq(App(elemIndexUF, o, i), Add(o, i)))
+}
+
+// RestrictGoal simplifies a goal under its path condition; an implication is
+// simplified under its own premise as well (and the path condition is first
+// simplified under that premise, which exposes more facts).
+func RestrictGoal(g, pc *Term) *Term {
+	if g.Op == "or" && len(g.Args) >= 2 {
+		n := len(g.Args)
+		var prem []*Term
+		for _, a := range g.Args[:n-1] {
+			prem = append(prem, Not(a))
+		}
+		p := And(prem...)
+		pc2 := Restrict(pc, p)
+		facts := And(p, pc2)
+		concl := Restrict(g.Args[n-1], facts)
+		concl = Restrict(concl, facts)
+		return Implies(p, concl)
+	}
+	return Restrict(g, pc)
 }
